@@ -13,6 +13,16 @@ CHECKS = {
     text="TLC enumerates every cell to depth 3 (quick) / 5 (thorough) and digit-pattern cells to resolution 29, and for each every children/parent/compose request in the property's quantifier (including omitted arguments and out-of-order requests), checks the tree laws on the abstract tree, and the requests are replayed on the real API in shuffled order with handed-out lists scribbled on; the answers are judged against Desc/Anc of the tree, norep, count, contiguity and parent-of-child clauses.",
     note="Trusted: TLC, JSON bridge, driver. Ids are read through A5Layout (bound to the code by C05); a flagged event is re-judged with the real deserialize before it counts.",
     ref="DESIGN.md section 5 C06"),
+ "C08": dict(
+    technique="TLA+ model MC_Compact (transcription of compact over real ids scaled by 2^-42, inputs built by ordered Add/Widen) model-checked by TLC against the reference compaction; TLC-generated inputs replayed on compact with hook events compared pass by pass; outputs judged by TLC trace spec Trace_Compact",
+    text="TLC builds every antichain of three (quick) / five (thorough) focus sub-hierarchies of the real 12/5/4 tree plus widened (ancestor-added) inputs, runs the transcribed algorithm and checks AlgCover (covered region unchanged) on all of them; sampled inputs are replayed on the real compact in permuted and duplicated order; random multisets with ancestors/descendants/duplicates and near-miss sibling runs to resolution 29 are added; TLC judges CoverF(result) = CoverF(input) and that every recorded pass only replaces complete sibling groups by their parent.",
+    note="Trusted: TLC, JSON bridge, driver, guarded hook events. Exhaustive only inside the focus universes (block symmetry on the listed faces); beyond them pattern/random inputs.",
+    ref="DESIGN.md section 5 C08"),
+ "C09": dict(
+    technique="TLA+ model MC_Compact model-checked by TLC (AlgIsCanon, AlgNoDup, AlgNoGroup on every antichain of the focus universes; numeric-order negative control); TLC-generated antichains replayed on compact in several orders/duplications; outputs judged by TLC trace spec Trace_Compact",
+    text="For antichain inputs TLC checks that the transcribed algorithm returns exactly the canonical set, without duplicates and without a complete sibling group, on every antichain of the focus universes; the same antichains (and random refinement antichains to resolution 29, near-miss runs) are replayed on the real compact in two permutations with duplicates and TLC judges canonical set, no duplicate, no complete group, idempotence and antichain preservation on the real outputs. A negative control shows the model rejects plain numeric ordering (the defect fixed by be0dab5).",
+    note="Trusted: TLC, JSON bridge, driver. Exhaustive only inside the focus universes.",
+    ref="DESIGN.md section 5 C09"),
  "C10": dict(
     technique="TLA+ session model MC_Tree (Build/AskList: working lists and uncompact targets) model-checked by TLC; lists replayed on uncompact after a client prelude; block-wise judgement by TLC trace spec Trace_Tree",
     text="TLC enumerates working lists of up to 3 cells built from a cell and its relatives (with multiplicity, the world cell, ancestors together with descendants) and every target around the finest member, including too-coarse targets; random deep lists to resolution 29 are added; each is replayed on uncompact and judged block by block (block i as a set = Desc(cell i, t), sizes, level, parent-of-output, argument unchanged, raises when a member is finer than t).",
